@@ -315,6 +315,51 @@ def check(case) -> core.Out:
         if got != want:
             out.viol.append((f"{PROP}|lookup|keyid", f"cfgkey2name({hex(kid)}) -> {got}, table says {want}"))
         return out
+    if k == "registered":
+        # a key the application adds to the exported table (after lookups have already
+        # taken place) is a key of the database like any other - and is gone again
+        # once the application removes it
+        name, kid, typ, val = case["name"], case["kid"], case["typ"], case["val"]
+        out.classes = ["application-registered-key"]
+        out.nontrivial = True
+        table = pyubx2.UBX_CONFIG_DATABASE
+        if name in table or names_of(kid):
+            out.classes = ["skipped:key-exists"]
+            return out
+        key = f"{PROP}|registered|"
+        unknown = (f"CFG_{hex(kid)}", f"X{WIDTH[(kid >> 28) & 7]:03d}")
+        try:
+            pyubx2.cfgkey2name(0x40520001)
+            before = tuple(pyubx2.cfgkey2name(kid))
+            table[name] = (kid, typ)
+            try:
+                if tuple(pyubx2.cfgname2key(name)) != (kid, typ):
+                    out.viol.append((key + "name2key", f"cfgname2key({name}) = {pyubx2.cfgname2key(name)}"))
+                if tuple(pyubx2.cfgkey2name(kid)) != (name, typ):
+                    out.viol.append((key + "key2name", f"cfgkey2name({hex(kid)}) = {pyubx2.cfgkey2name(kid)} after "
+                                                       f"{name} was registered under that ID"))
+                want = ref_payload("set", 1, 0, [(kid, typ, val)])
+                for how, k_ in (("name", name), ("id", kid)):
+                    try:
+                        got = pyubx2.UBXMessage.config_set(1, 0, [(k_, val)]).payload
+                    except Exception as err:  # noqa
+                        got = repr(err).encode()
+                    if got != want:
+                        out.viol.append((key + f"config_set-by-{how}", f"{got[:40]!r} instead of {want.hex()}"))
+                m = pyubx2.UBXReader.parse(codec.ubx_frame(b"\x06", b"\x8a", want), msgmode=1)
+                if getattr(m, name, None) != val:
+                    out.viol.append((key + "parse", f"parsed CFG-VALSET exposes {[n for n, _ in C.public_attrs(m)][-1]} "
+                                                    f"for the registered key {name}"))
+            finally:
+                del table[name]
+            after = tuple(pyubx2.cfgkey2name(kid))
+            if before != unknown or after != unknown:
+                out.viol.append((key + "lingers", f"cfgkey2name({hex(kid)}) = {before} before registration and "
+                                                  f"{after} after removal; expected {unknown}"))
+        except Exception as err:  # noqa
+            table.pop(name, None)
+            out.viol.append((key + f"raises:{type(err).__name__}", repr(err)[:200]))
+        return out
     if k == "limit":
         helper, n = case["helper"], case["n"]
         out.classes = ["limit"]
@@ -367,6 +412,37 @@ def run_shard(spec, ctx, acc):
             kid, typ = db()[name]
             case = {"kind": "lookup", "name": name}
             core.handle(acc, core.checked(check, case), case, known)
+            # values that compare (and hash) equal but encode differently, one after the
+            # other for the same key: +0.0 / -0.0 / 0 for float keys; 1 / True for the rest
+            seq = [0.0, -0.0, 0, -0.0, 0.0] if typ[0] == "R" else ([1, True, 1, 0, False] if typ[0] in "ELU" else [])
+            if typ[0] in "ELU" and codec.tsize(typ) == 1 and typ[0] == "L":
+                seq = [True, 1, False, 0]
+            for how in (name, kid):
+                for v in seq:
+                    c2 = {"kind": "build", "helper": "set", "a": 1, "b": 0, "items": [[how, v]]}
+                    o = check(c2)
+                    o.classes = list(o.classes) + ["equal-values-in-sequence"]
+                    core.handle(acc, o, c2, known)
+            # the ends of the type's range, for every key (not left to chance)
+            if typ[0] == "R":
+                import struct
+
+                big = struct.unpack("<f", bytes.fromhex("ffff7f7f"))[0] if codec.tsize(typ) == 4 else 1.7976931348623157e308
+                tiny = struct.unpack("<f", bytes.fromhex("01000000"))[0] if codec.tsize(typ) == 4 else 5e-324
+                ends = [float("inf"), float("-inf"), float("nan"), big, -big, tiny, -tiny]
+            elif typ[0] in "EILU":
+                lo, hi = codec.int_range(typ)
+                ends = [lo, hi, lo + 1, hi - 1] if typ[0] != "L" else [0, 1]
+            elif typ[0] == "X":
+                ends = [b"\xff" * codec.tsize(typ), bytes(codec.tsize(typ)), bytes(range(1, codec.tsize(typ) + 1))]
+            else:
+                ends = []
+            for j, v in enumerate(ends):
+                for c2 in ({"kind": "build", "helper": "set", "a": j % 8, "b": 1, "items": [[name if j % 2 else kid, v]]},
+                           {"kind": "parse", "mode": 1, "hdr": bytes([0, 1, 0, 0]), "items": [[kid, v]]}):
+                    o = check(c2)
+                    o.classes = list(o.classes) + ["range-end-value"]
+                    core.handle(acc, o, c2, known)
             # every single-bit neighbour of the key ID (documented or not)
             for bit in range(32):
                 c2 = {"kind": "keyid", "kid": kid ^ (1 << bit)}
@@ -404,6 +480,12 @@ def run_shard(spec, ctx, acc):
                             max_examples=reps, known=known, rounds=1)
         return
     if spec["what"] == "limits":
+        for i, (kid, typ, val) in enumerate([(0x30FE0001, "U002", 48879), (0x10FE0002, "L001", 1), (0x20FE0003, "E001", 7),
+                                             (0x40FE0004, "I004", -5), (0x50FE0005, "R008", 2.5),
+                                             (0x20FE0006, "X001", b"\x1f")]):
+            case = {"kind": "registered", "name": f"CFG_VERIF_KEY{i}", "kid": kid, "typ": typ, "val": val}
+            for env in (None,) + tuple(core.ENVS):
+                core.handle(acc, core.checked(check, case, env=env), case, known)
         for helper in ("set", "del", "poll"):
             for n in (0, 1, 63, 64, 65, 66, 200):
                 case = {"kind": "limit", "helper": helper, "n": n}
